@@ -58,6 +58,31 @@ def inh_depth(g):
     return max(dep(t, frozenset()) for t in edges)
 
 
+def big_graphs():
+    """hand-made acyclic graphs with objects of 13 to 30 properties after inheriting (seven to nine own properties per type,
+    chains and two bases); their expected children follow the rule of JSightTypes!Inherited, evaluated here for these
+    fixed graphs: for every base in the order named all ITS children marked with that base, then the own ones"""
+    def ints(n):
+        return [{"to": 1, "how": "int", "to2": 1} for _ in range(n)]
+    shapes = [
+        [([], 7), ([1], 7), ([2], 3), ([], 9)],
+        [([], 9), ([], 8), ([1, 2], 5), ([3], 2)],
+        [([], 6), ([1], 7), ([], 1), ([3, 2], 1)],
+        [([2], 8), ([], 8), ([1], 8), ([], 0)],
+    ]
+    res = []
+    for sh in shapes:
+        g = [{"bases": b, "props": ints(n)} for b, n in sh]
+
+        def inh(t):
+            out = []
+            for b in g[t - 1]["bases"]:
+                out += [{"owner": c["owner"], "idx": c["idx"], "inh": b} for c in inh(b)]
+            return out + [{"owner": t, "idx": i, "inh": 0} for i in range(1, len(g[t - 1]["props"]) + 1)]
+        res.append({"g": g, "verdict": "unjudged", "impl": "accepted", "depth": 2, "recursive": False, "props": [inh(t) for t in (1, 2, 3, 4)]})
+    return res
+
+
 def graphs(chk, tier, salt):
     n = 4000 if tier == "thorough" else 500
     r = tlc_ok(tlc("JSightTypes", "Types_sim.cfg", consts={"N": "4", "MaxProps": "3"}, simulate=n, depth=6,
@@ -69,7 +94,7 @@ def graphs(chk, tier, salt):
                     tlc_seed=seed() * 19 + salt, workers=4, timeout=900), "JSightTypes (more properties)")
     chk.add_tlc(r2)
     seen, res = set(), []
-    for m in r.mbt + r2.mbt:
+    for m in r.mbt + r2.mbt + big_graphs():
         k = json.dumps(m["g"], sort_keys=True)
         if k not in seen:
             seen.add(k)
